@@ -51,8 +51,12 @@
 (*                limit                                                    *)
 (*                                                                         *)
 (* Values: a value is an integer: NullV = -1 is None, table integers are   *)
-(* >= 0 and < 1000, the string Letters[k] is 1000 + k.  So `<` on values   *)
-(* is the SQLite order (NULL first) within a column.                       *)
+(* >= 0 and < 1000, the string Letters[k] is 1000 + k, the Decimal with c  *)
+(* hundredths is 100000 + c, the date d days after 2020-01-01 is           *)
+(* 200000 + d.  So `<` on values is the SQLite order (NULL first) within a *)
+(* column.  The Decimal and date columns exist because their values are    *)
+(* converted on the way back from the database: a method must return the   *)
+(* Python value (value and type), every time it is called.                 *)
 (***************************************************************************)
 EXTENDS Integers, Sequences, FiniteSets, TLC
 
@@ -60,6 +64,8 @@ None == -1             \* an absent bound (limit / offset / slice start / stop /
 NullV == -1            \* the value None
 Letters == <<"a", "b", "c">>
 StrV(k) == 1000 + k
+DecV(c) == 100000 + c          \* Decimal(c) / 100
+DateV(d) == 200000 + d         \* date(2020, 1, 1) + d days
 
 Min2(a, b) == IF a <= b THEN a ELSE b
 Max2(a, b) == IF a >= b THEN a ELSE b
@@ -112,24 +118,27 @@ ASSUME GetitemIsSlice ==
         LET c == SliceLO(i, j) IN ApplyLO(Ident(n), c[1], c[2]) = PySl(Ident(n), i, j)
 
 ---------------------------------------------------------------------------
-(* The table (entity A: id primary key, v Optional(int), s Optional(str)); duplicates and None in v and s *)
-Table == << [id |-> 1, v |-> 1,     s |-> StrV(1)],
-            [id |-> 2, v |-> 2,     s |-> StrV(2)],
-            [id |-> 3, v |-> 9,     s |-> NullV],
-            [id |-> 4, v |-> 7,     s |-> StrV(1)],
-            [id |-> 5, v |-> 7,     s |-> StrV(2)],
-            [id |-> 6, v |-> NullV, s |-> StrV(3)],
-            [id |-> 7, v |-> 2,     s |-> StrV(1)] >>
+(* The table (entity A: id primary key, v Optional(int), s Optional(str), p Optional(Decimal, 10, 2),
+   day Optional(date)); duplicates and None in every column; the Decimals are multiples of 0.25 (exact as floats) *)
+Table == << [id |-> 1, v |-> 1,     s |-> StrV(1), p |-> DecV(1025), day |-> DateV(14)],
+            [id |-> 2, v |-> 2,     s |-> StrV(2), p |-> DecV(2050), day |-> DateV(517)],
+            [id |-> 3, v |-> 9,     s |-> NullV,   p |-> DecV(575),  day |-> NullV],
+            [id |-> 4, v |-> 7,     s |-> StrV(1), p |-> DecV(1025), day |-> DateV(14)],
+            [id |-> 5, v |-> 7,     s |-> StrV(2), p |-> NullV,      day |-> DateV(0)],
+            [id |-> 6, v |-> NullV, s |-> StrV(3), p |-> DecV(50),   day |-> DateV(517)],
+            [id |-> 7, v |-> 2,     s |-> StrV(1), p |-> DecV(2050), day |-> DateV(366)] >>
 
 (* base queries: what is selected from each row.  "ent": select(a for a in A) - an item is <<id>> *)
-Projs == {"ent", "v", "s", "vs", "idv"}
+Projs == {"ent", "v", "s", "vs", "idv", "p", "day"}
 ItemOf(proj, row) ==
     CASE proj = "ent" -> <<row.id>>
       [] proj = "v"   -> <<row.v>>
       [] proj = "s"   -> <<row.s>>
+      [] proj = "p"   -> <<row.p>>
+      [] proj = "day" -> <<row.day>>
       [] proj = "vs"  -> <<row.v, row.s>>
       [] proj = "idv" -> <<row.id, row.v>>
-AutoDistinct(proj) == proj \in {"v", "s", "vs"}       \* documented automatic DISTINCT
+AutoDistinct(proj) == proj \in {"v", "s", "vs", "p", "day"}       \* documented automatic DISTINCT
 Width(proj) == IF proj \in {"vs", "idv"} THEN 2 ELSE 1
 
 (* an element of a result: the item plus the row it came from (for ordering entities by attributes) *)
@@ -268,7 +277,7 @@ SubDepth(q) == IF q.sub = <<>> THEN 0 ELSE 1 + SubDepth(q.sub[1].q)
 Applicable(q, st) ==
     LET ent == q.proj = "ent"
         nosub == q.sub = <<>>
-    IN CASE st.op = "filter"   -> st.p = "gt1" /\ q.proj # "s" /\ (nosub \/ q.proj \in {"ent", "v"})
+    IN CASE st.op = "filter"   -> st.p = "gt1" /\ q.proj \notin {"s", "p", "day"} /\ (nosub \/ q.proj \in {"ent", "v"})
          [] st.op = "where"    -> st.p \in {"sa", "v9", "v100"} /\ (nosub \/ ent)
          [] st.op = "wherestr" -> st.p = "lt9" /\ (nosub \/ ent)
          [] st.op = "kw"       -> st.p \in {"v7", "vnone"} /\ (nosub \/ ent)
@@ -381,12 +390,17 @@ Sem(q, t, devs) ==
          [] t.op = "count"  ->
                 IF "countsql" \in devs /\ q.proj # "ent" /\ q.sub = <<>> THEN OInt(CountSql(q, t.d, devs))
                 ELSE OInt(Len(Res(SetExpl(q, t.d), devs).e))
-         [] t.op = "sum"    -> IF q.proj = "v" THEN OInt(SumSeq(AggVals(q, t.d, devs))) ELSE OUnsupported
-         [] t.op = "avg"    -> IF q.proj # "v" THEN OUnsupported
+         [] t.op = "sum"    -> IF q.proj = "v" THEN OInt(SumSeq(AggVals(q, t.d, devs)))
+                               ELSE IF q.proj = "p"        \* a Decimal, also for the sum of nothing
+                               THEN LET vs == AggVals(q, t.d, devs) IN OItem(<<DecV(SumSeq(vs) - Len(vs) * DecV(0))>>)
+                               ELSE OUnsupported
+         [] t.op = "avg"    -> IF q.proj \notin {"v", "p"} THEN OUnsupported      \* avg is a float, also of Decimals
                                ELSE LET vs == AggVals(q, t.d, devs)
-                                    IN IF vs = <<>> THEN ONone ELSE OFrac(SumSeq(vs), Len(vs))
+                                    IN IF vs = <<>> THEN ONone
+                                       ELSE IF q.proj = "v" THEN OFrac(SumSeq(vs), Len(vs))
+                                       ELSE OFrac(SumSeq(vs) - Len(vs) * DecV(0), 100 * Len(vs))
          [] t.op \in {"min", "max"} ->
-                IF q.proj \notin {"v", "s"} THEN OUnsupported
+                IF q.proj \notin {"v", "s", "p", "day"} THEN OUnsupported
                 ELSE LET vs == Range(AggVals(q, "no", devs))
                      IN IF vs = {} THEN ONone
                         ELSE OItem(<<CHOOSE x \in vs : \A y \in vs : IF t.op = "min" THEN x <= y ELSE x >= y>>)
